@@ -43,6 +43,13 @@ pub broadcast proof fn b_join3(v: Seq<String>, sep: Seq<char>)
     requires v.len() == 3 ensures #[trigger] join_strs(v, sep) == v[0]@ + sep + (v[1]@ + sep + v[2]@)
 { reveal_with_fuel(join_strs, 3); b_join2(v.skip(1), sep); assert(v.skip(1)[0] == v[1] && v.skip(1)[1] == v[2]); }
 
+pub broadcast proof fn b_join4(v: Seq<String>, sep: Seq<char>)
+    requires v.len() == 4 ensures #[trigger] join_strs(v, sep) == v[0]@ + sep + (v[1]@ + sep + (v[2]@ + sep + v[3]@))
+{ reveal_with_fuel(join_strs, 3); b_join3(v.skip(1), sep); assert(v.skip(1)[0] == v[1] && v.skip(1)[1] == v[2] && v.skip(1)[2] == v[3]); }
+pub broadcast proof fn b_join5(v: Seq<String>, sep: Seq<char>)
+    requires v.len() == 5 ensures #[trigger] join_strs(v, sep) == v[0]@ + sep + (v[1]@ + sep + (v[2]@ + sep + (v[3]@ + sep + v[4]@)))
+{ reveal_with_fuel(join_strs, 3); b_join4(v.skip(1), sep); assert(v.skip(1)[0] == v[1] && v.skip(1)[1] == v[2] && v.skip(1)[2] == v[3] && v.skip(1)[3] == v[4]); }
+
 /// R4: Vec<String>::join(sep)
 #[verifier::external_body]
 pub fn vec_join(v: &Vec<String>, sep: &str) -> (r: String) ensures r@ == join_strs(v@, sep@) { unimplemented!() }
@@ -68,6 +75,8 @@ pub uninterp spec fn body1_spec(a: u32) -> u64;
 #[verifier::external_body] pub fn body1(a: u32) -> (r: u64) ensures r == body1_spec(a) { unimplemented!() }
 pub uninterp spec fn body3_spec(a: u32, b: String, c: u32) -> u64;
 #[verifier::external_body] pub fn body3(a: u32, b: String, c: u32) -> (r: u64) ensures r == body3_spec(a, b, c) { unimplemented!() }
+pub uninterp spec fn body5_spec(a: u32, b: String, c: u32, d: u32, e: String) -> u64;
+#[verifier::external_body] pub fn body5(a: u32, b: String, c: u32, d: u32, e: String) -> (r: u64) ensures r == body5_spec(a, b, c, d, e) { unimplemented!() }
 pub uninterp spec fn body_v_spec(a: Vec<u32>, b: Vec<u32>) -> u64;
 #[verifier::external_body] pub fn body_v(a: Vec<u32>, b: Vec<u32>) -> (r: u64) ensures r == body_v_spec(a, b) { unimplemented!() }
 pub uninterp spec fn body_t_spec(p: (u32, u32), c: u32) -> u64;
@@ -105,7 +114,7 @@ pub assume_specification<T: Clone, E: Clone> [<Result<T, E> as Clone>::clone] (r
 /// Clone of a cached value yields an equal value (assumed contract on Clone for the value types of the corpus)
 pub broadcast axiom fn ax_cloned_eq<T: Clone>(a: T, b: T) ensures #[trigger] cloned(a, b) ==> a == b;
 
-pub broadcast group group_wrap { ax_key_str, ax_bar_literal, b_join1, b_join2, b_join3, ax_cloned_eq }
+pub broadcast group group_wrap { ax_key_str, ax_bar_literal, b_join1, b_join2, b_join3, b_join4, b_join5, ax_cloned_eq }
 ''')
 
 AWAIT_TEXT = '''
@@ -162,7 +171,7 @@ pub broadcast proof fn b_rm_seq_empty(q: Seq<String>, ks: Seq<String>)
 pub broadcast group group_cb { b_rm_seq_step, b_rm_seq_empty }
 ''')
 
-BODY_SPEC = {'body1(a)': 'body1_spec(a)', 'body3(a, b, c)': 'body3_spec(a, b, c)', 'body_v(a, b)': 'body_v_spec(a, b)', 'body_t((x, y), c)': 'body_t_spec(p0, c)',
+BODY_SPEC = {'body1(a)': 'body1_spec(a)', 'body5(a, b, c, d, e)': 'body5_spec(a, b, c, d, e)', 'body3(a, b, c)': 'body3_spec(a, b, c)', 'body_v(a, b)': 'body_v_spec(a, b)', 'body_t((x, y), c)': 'body_t_spec(p0, c)',
              'body2(a, b)': 'body2_spec(a, b)', 'body_res(a)': 'body_res_spec(a)', '0': '0u64'}
 HINT = (('fn_start',), 'wrap_axioms', 'broadcast use group_wrap;')
 
@@ -177,15 +186,12 @@ def key_expr(attrs):
     e = parts[-1]
     for p in reversed(parts[:-1]):
         e = '%s + bar() + (%s)' % (p, e) if len(parts) > 2 and p is not parts[-2] else '%s + bar() + %s' % (p, e)
-    # closed forms used by the b_join lemmas: p1 ; p1+sep+p2 ; p1+sep+(p2+sep+p3)
-    if len(parts) == 1:
-        e = parts[0]
-    elif len(parts) == 2:
-        e = '%s + bar() + %s' % (parts[0], parts[1])
-    elif len(parts) == 3:
-        e = '%s + bar() + (%s + bar() + %s)' % (parts[0], parts[1], parts[2])
-    else:
-        raise ValueError('fixture arity > 3 not supported')
+    # closed forms used by the b_join lemmas: p1 ; p1+sep+p2 ; p1+sep+(p2+sep+p3) ; ... (right-nested)
+    if len(parts) > 5:
+        raise ValueError('fixture arity > 5 not supported')
+    e = parts[-1]
+    for i, p_ in enumerate(reversed(parts[:-1])):
+        e = '%s + bar() + %s' % (p_, e if i == 0 else '(%s)' % e)
     return 'key_str(%s)' % e
 
 
